@@ -204,8 +204,8 @@ is not stable: `diversify`, the scipy glue and `diversify_csr` with one `rng_sta
 0.2 – 0.5, drop the first other entry of such a row in about one case of six).  What holds
 without them is `searchGraph_nearest_tied`: `u` keeps an edge to `v*` *or to a point tied with it*,
 which is (i).
-Missing for full strength: only the final renaming by `_vertex_order` (undone and checked edge for
-edge by the harness).
+The final renaming by `_vertex_order` is the subject of `searchGraphD_renamed` below (and is undone and
+checked edge for edge by the harness).
 -/
 
 /-- **Nearest neighbour kept, every `diversify_prob`** (see the comment above for the full
